@@ -137,6 +137,46 @@ theorem c11_round_choice (c : Client) (choices : List (Key × Attempt)) (p : Par
   · rw [h2] at h
     exact absurd h (h1 p k)
 
+theorem c11h_attempts_primary (c : Client) (n : Nat) (failed : List Key) (choices : List (Key × Attempt))
+    (p : Parsed) (k : Key) (h : (attempts c n failed choices).2 = .synced p k) :
+    (attempts c n failed choices).1.primary = k := by
+  induction n generalizing c failed choices with
+  | zero => simp [attempts] at h
+  | succ n ih =>
+    cases choices with
+    | nil => simp [attempts] at h
+    | cons ka rest =>
+      obtain ⟨k', a⟩ := ka
+      simp only [attempts] at h ⊢
+      split
+      · rename_i hc; rw [if_pos hc] at h; simp at h
+      · rename_i hc
+        rw [if_neg hc] at h
+        split
+        · rename_i he; rw [if_pos he] at h; simp at h
+        · rename_i he
+          rw [if_neg he] at h
+          cases a with
+          | ok p' =>
+            simp at h
+            obtain ⟨_, rfl⟩ := h
+            rfl
+          | fail => exact ih { c with primary := k' } (k' :: failed) rest h
+
+/-- After a round that synced, the server the client reports to is the one that answered: a reply cannot
+point the client at another server (a migration replaces the list, not the choice). -/
+theorem c11_primary_after_sync (c : Client) (choices : List (Key × Attempt)) (p : Parsed) (k : Key)
+    (h : (syncRound c choices).2 = .synced p k) : (syncRound c choices).1.primary = k := by
+  rcases c11_syncRound_cases c choices with ⟨p', k', h1, h2⟩ | ⟨h1, h2⟩
+  · rw [h2] at h ⊢
+    simp at h
+    obtain ⟨rfl, rfl⟩ := h
+    have := c11h_attempts_primary c 5 [] choices _ _ h1
+    simp only [adopt]
+    split <;> simpa using this
+  · rw [h2] at h
+    exact absurd h (h1 p k)
+
 /-- All servers banned: the round ends at once (and, by the lock skeleton, with the mutex free). -/
 theorem c11_all_banned (c : Client) (choices : List (Key × Attempt))
     (h : ∀ k s, c.servers.get k = some s → s.banned = true) (hne : choices ≠ []) :
